@@ -20,7 +20,7 @@ MUTED_TEXT = "!EXC:MUTED"
 
 def q(f, *a, **kw):
     """Call a library query; an exception becomes part of the observation."""
-    if MUTED and (getattr(f, "__name__", "") + ("*" if kw else "")) in MUTED:
+    if MUTED and (getattr(f, "__name__", "") + ("*" if (kw or len(a) > 1 or (a and getattr(f, "__name__", "") in ("isolated_nodes", "num_edges"))) else "")) in MUTED:
         return _Exc("MUTED")
     try:
         return f(*a, **kw)
@@ -127,6 +127,8 @@ def observe(kind, h, universe, probe_keys, flip=0, sizes=None):
     """flip (0/1) swaps which of the two spellings (size= / order=) each filtered query uses."""
     o = {}
     SZ = sizes or SIZES
+    pos3 = flip // 2  # which sizes are asked with a POSITIONAL filter argument at this step (documented parameter order)
+    flip = flip % 2
     nodes = q(h.get_nodes)
     o["nodes"] = tags(nodes)
     present = [] if _e(nodes) else list(nodes)
@@ -218,11 +220,20 @@ def observe(kind, h, universe, probe_keys, flip=0, sizes=None):
                     q(h.num_edges, size=s, up_to=up) if (s + flip) % 2 else q(h.num_edges, order=s - 1, up_to=up))
         kw = {"size": s} if (s + flip) % 2 else {"order": s - 1}
         kw2 = {"order": s - 1} if (s + flip) % 2 else {"size": s}
-        o[f"inc/size={s}"] = {tag(n): lst(kind, q(h.get_incident_edges, n, **kw)) for n in present}
-        o[f"nbr/size={s}"] = {tag(n): tags(q(h.get_neighbors, n, **kw2)) for n in present}
-        o[f"isolated/size={s}"] = tags(q(h.isolated_nodes, **kw))
-        o[f"is_isolated/size={s}"] = {tag(n): boolval(q(h.is_isolated, n, **kw2)) for n in present}
-        o[f"deg/size={s}"] = {tag(n): val(q(h.degree, n, **kw2)) for n in present}
+        if (s + pos3) % 3 == 0:
+            # positional spelling: (node, order, size) for neighbours / incidence / degree, (node, size, order) for the
+            # isolated-node queries - the parameter order of the public signatures is part of the API
+            o[f"inc/size={s}"] = {tag(n): lst(kind, q(h.get_incident_edges, n, s - 1)) for n in present}
+            o[f"nbr/size={s}"] = {tag(n): tags(q(h.get_neighbors, n, s - 1)) for n in present}
+            o[f"isolated/size={s}"] = tags(q(h.isolated_nodes, s))
+            o[f"is_isolated/size={s}"] = {tag(n): boolval(q(h.is_isolated, n, s)) for n in present}
+            o[f"deg/size={s}"] = {tag(n): val(q(h.degree, n, s - 1)) for n in present}
+        else:
+            o[f"inc/size={s}"] = {tag(n): lst(kind, q(h.get_incident_edges, n, **kw)) for n in present}
+            o[f"nbr/size={s}"] = {tag(n): tags(q(h.get_neighbors, n, **kw2)) for n in present}
+            o[f"isolated/size={s}"] = tags(q(h.isolated_nodes, **kw))
+            o[f"is_isolated/size={s}"] = {tag(n): boolval(q(h.is_isolated, n, **kw2)) for n in present}
+            o[f"deg/size={s}"] = {tag(n): val(q(h.degree, n, **kw2)) for n in present}
         r = q(h.degree_distribution, **kw)
         o[f"degdist/size={s}"] = repr(r) if _e(r) else {str(d): c for d, c in r.items()}
     if kind == "D":
@@ -392,7 +403,7 @@ def apply_op(kind, h, op):
             elif kind == "M":
                 h.add_edges(es, list(op["layers"]), **kw)
             else:
-                h.add_edges(es, **kw)
+                h.add_edges(batch(es), **kw)
         elif name == "remove_edge":
             e = _edge_arg(kind, op["e"], form)
             if kind == "T":
